@@ -1,0 +1,19 @@
+//go:build verif
+
+// Contracts (machine-checked by /verif/bin/govc).  Comment-only file.
+
+package util_3gpp
+
+// DNN as carried in NAS (TS 24.501 9.11.2.1B): a length octet followed by the value.
+//@ func (*Dnn).MarshalBinary
+//@ prop C17
+//@ requires len: len(*d) <= 100
+//@ ensures ok: err == nil && len(data) == 1+len(*d) && int(data[0]) == len(*d)
+//@ ensures value: vc.Forall(0, len(*d), func(k int) bool { return data[1+k] == (*d)[k] })
+
+//@ func (*Dnn).UnmarshalBinary
+//@ prop C17
+//@ requires len: len(data) >= 1
+//@ ensures ok: result == nil && len(*d) == len(data)-1
+//@ ensures value: vc.Forall(0, len(*d), func(k int) bool { return (*d)[k] == data[1+k] })
+//@ assigns d
